@@ -104,6 +104,7 @@ TraceStep ==
   \/ IsEvent("JobWaitReturn") /\ JobWaitReturn(Ev.args.j) /\ s.result[Ev.args.j] = Ev.args.r
   \/ IsEvent("Die") /\ Running /\ Die
   \/ IsEvent("Start") /\ Restart
+  \/ IsEvent("RmDone") /\ RmDone(Ev.args.n)
   \/ IsEvent("Internal") /\ UNCHANGED vars
   \/ IsEvent("End") /\ GoodEnd /\ UNCHANGED vars
 
@@ -121,6 +122,7 @@ TraceSpec == TraceInit /\ [][TraceNext]_<<vars, tid, l>>
 InvList ==
   << <<"OneBodyAtATime", OneBodyAtATime>>,
      <<"RegistryDedup", RegistryDedup>>,
+     <<"SuccessfulBodyAtMostOnce", SuccessfulBodyAtMostOnce>>,
      <<"ResultIsFinal", ResultIsFinal>>,
      <<"WaitOnlyWhenAllFinal", WaitOnlyWhenAllFinal>>,
      <<"CounterNonNegative", CounterNonNegative>>,
